@@ -9,3 +9,7 @@ CONSTANTS
   AtomicSend = FALSE
   TickFix = FALSE
   SwallowAllowed = TRUE
+  Seek <- SeekNone
+  CollOf <- CollOf3
+  JoinLifts = TRUE
+  StartAllFirst = TRUE
